@@ -32,7 +32,7 @@ import math
 from typing import Any
 
 from .collect import sig_of
-from .loops import BusyLoop, Deadlock, run
+from .loops import BusyLoop, Deadlock, VLoop, cycles_now, run, ticker_of
 from .shadow import Node, Shadow
 
 B_CYCLES = 4  # bound on delivery latency in loop cycles (measured maximum: 2)
@@ -90,15 +90,22 @@ class Run:
             self.maxima[name] = v
 
     def cyc(self) -> int:
-        return self.loop.cycles - self.c0
+        return cycles_now() - self.c0
 
     def now(self) -> tuple[int, int, float]:
-        return (self.seq, self.cyc(), self.loop.time())
+        return (self.seq, self.cyc(), self.loop.time() if self.virtual else 0.0)
 
     def ev(self, actor: Any, kind: str, *payload: Any) -> int:
         self.seq += 1
-        self.log.append((self.seq, self.cyc(), round(self.loop.time(), 6), actor, kind, *payload))
+        self.log.append((self.seq, self.cyc(), self.vnow(), actor, kind, *payload))
+        if self.ticker is not None:
+            self.ticker.activity()
+
         return self.seq
+
+    def vnow(self) -> float:
+        """virtual time on VLoop; on uvloop (timer-free programs only) time plays no role"""
+        return round(self.loop.time(), 6) if self.virtual else 0.0
 
     # ------------------------------------------------------------------ main
     async def main(self) -> None:
@@ -107,10 +114,15 @@ class Run:
 
         self.anyio = anyio
         self.loop = asyncio.get_running_loop()
-        self.c0 = self.loop.cycles
+        self.virtual = isinstance(self.loop, VLoop)
+        self.ticker = None if self.virtual else ticker_of(self.loop)
+        self.c0 = cycles_now()
         self.sh = Shadow(self.now)
-        self.loop.clock_listeners.append(self.sh.clock_advanced)
-        self.loop.abort_hooks.append(self.on_abort)
+        if self.virtual:
+            self.loop.clock_listeners.append(self.sh.clock_advanced)
+            self.loop.abort_hooks.append(self.on_abort)
+        else:
+            self.ticker.abort_hooks.append(self.on_abort)
         self.scopes: dict[str, Any] = {}  # sid -> real CancelScope
         self.groups: dict[str, Any] = {}  # gid -> real TaskGroup
         self.ginfo: dict[str, dict] = {}  # gid -> monitor record
@@ -136,7 +148,7 @@ class Run:
         with CancelScope() as root_scope:
             self.scopes["ROOT"] = root_scope
             self.sh.enter("root", root_node)
-            self.rescue_handle = self.loop.call_at(RESCUE_T, self.rescue)
+            self.arm_rescue(first=True)
             self.register_agents("after")
             try:
                 await self.run_ops("root", self.p["root"])
@@ -152,7 +164,9 @@ class Run:
 
             self.sh.exit("root", root_node)
 
-        self.rescue_handle.cancel()
+        if self.rescue_handle is not None:
+            self.rescue_handle.cancel()
+
         for th in self.agent_timers:
             th.cancel()
 
@@ -163,27 +177,32 @@ class Run:
         for _ in range(5):
             await asyncio.sleep(0)
 
-        self.check_exited_scopes(final=True)
-        c_before = self.loop.cycles
-        await asyncio.sleep(1000)
-        idle_cycles = self.loop.cycles - c_before
-        self.maximum("idle_cycles_during_long_sleep", idle_cycles)
-        if idle_cycles > 4:
-            self.V("C05", "loop-not-idle-after-program", {"cycles_during_idle_sleep": idle_cycles})
-
         mine = asyncio.current_task()
-        left = [t.get_name() for t in asyncio.all_tasks() if t is not mine and not t.done()]
+        if self.virtual:
+            self.check_exited_scopes(final=True)
+            c_before = self.loop.cycles
+            await asyncio.sleep(1000)
+            idle_cycles = self.loop.cycles - c_before
+            self.maximum("idle_cycles_during_long_sleep", idle_cycles)
+            if idle_cycles > 4:
+                self.V("C05", "loop-not-idle-after-program",
+                       {"cycles_during_idle_sleep": idle_cycles})  # fmt: skip
+
+            foreign = [repr(h) for h in self.loop.live_handles()]
+            if foreign:
+                self.V("C05", "live-handles-after-program", {"handles": foreign[:5]})
+
+        left = [t.get_name() for t in asyncio.all_tasks()
+                if t is not mine and not t.done() and t.get_name().startswith("t")]  # fmt: skip
         if left:
             self.V("C01", "task-alive-after-program", {"tasks": left})
-
-        foreign = [repr(h) for h in self.loop.live_handles()]
-        if foreign:
-            self.V("C05", "live-handles-after-program", {"handles": foreign[:5]})
 
         self.final_checks()
 
     finished = False
     rescues = 0
+    virtual = True
+    ticker = None
 
     def on_abort(self, reason: str) -> None:
         self.ev("loop", "ABORT", reason)
@@ -214,7 +233,26 @@ class Run:
         # programs may raise shields again while they unwind: come back a few times
         self.rescues += 1
         if self.rescues < 8:
-            self.rescue_handle = self.loop.call_at(self.loop.time() + 50, self.rescue)
+            self.arm_rescue(first=False)
+
+    rescue_handle = None
+
+    def arm_rescue(self, first: bool) -> None:
+        if self.virtual:
+            when = RESCUE_T if first else self.loop.time() + 50
+            self.rescue_handle = self.loop.call_at(when, self.rescue)
+        else:
+            # no virtual time on uvloop: a cycle-counting chain (programs are timer-free)
+            def tick(n: int) -> None:
+                if self.finished or self.aborted:
+                    return
+
+                if n <= 0:
+                    self.rescue()
+                else:
+                    self.loop.call_soon(tick, n - 1)
+
+            self.loop.call_soon(tick, 300 if first else 120)
 
     # ------------------------------------------------------------------ agents
     def register_agents(self, place: str) -> None:
@@ -908,6 +946,10 @@ class Run:
     def check_exited_scopes(self, final: bool = False) -> None:
         """C05 (c): no timer or delivery callback of a scope keeps running after exit
         (one more cycle is granted: a queued delivery callback finds no task and stops)."""
+        if not self.virtual:
+            self.exited_scopes = []
+            return  # (the ready queue / timer heap of uvloop cannot be inspected)
+
         cyc = self.cyc()
         keep = []
         for sc, sid, at in self.exited_scopes:
@@ -1424,7 +1466,7 @@ async def _await(h):  # noqa: ANN001, ANN202
 
 def execute(program: dict) -> dict:
     r = Run(program)
-    info: dict = {}
+    info: dict = {"stuck_ticks": 900}
     try:
         run(r.main, config=program["cfg"], info=info, cycle_budget=program.get("budget", 4000))
     except Deadlock:
